@@ -48,6 +48,17 @@ ITEM_CLASSES = {'Item', 'FileItem', 'ModuleItem', 'ProcedureItem', 'TypeDefItem'
 from sa.fold import _has_lower, _enclosing_functions, classify  # noqa: E402
 
 
+def _ci_container(m, mod, expr):
+    """the container expression is a call of a repo function whose every return is ``CaseInsensitiveDict(...)``"""
+    if isinstance(expr, ast.Call) and isinstance(expr.func, ast.Name):
+        from sa.model import FunctionInfo
+        got = m.resolve(mod, expr.func.id)
+        if isinstance(got, FunctionInfo):
+            rets = [r.value for r in ast.walk(got.node) if isinstance(r, ast.Return)]
+            return bool(rets) and all(isinstance(r, ast.Call) and X.call_name_of(r) == 'CaseInsensitiveDict' for r in rets)
+    return False
+
+
 def run(ctx):
     m = ctx.model
     ctx.rule('R1', 'Item.__eq__ compares lower-cased names; Item.__hash__ must hash the lower-cased name')
@@ -259,9 +270,9 @@ def run(ctx):
                         continue
                     key = None
                     if isinstance(x, ast.Call) and isinstance(x.func, ast.Attribute) and x.func.attr == 'get' and x.args:
-                        key = x.args[0]
+                        key = None if _ci_container(m, fac.module, x.func.value) else x.args[0]
                     elif isinstance(x, ast.Subscript) and not isinstance(x.ctx, ast.Store):
-                        key = x.slice
+                        key = None if _ci_container(m, fac.module, x.value) else x.slice
                     elif isinstance(x, ast.Compare) and isinstance(x.ops[0], (ast.In, ast.NotIn, ast.Eq, ast.NotEq)):
                         # membership in an IR scope compares through expression symbols (case-insensitive string equality)
                         if isinstance(x.ops[0], (ast.In, ast.NotIn)) and ast.unparse(x.comparators[0]).split('.')[0] in {c.split('.')[0] for c in CI_SCOPES} \
